@@ -6,6 +6,7 @@ from fractions import Fraction
 import numpy as np
 
 from vf.gen.models import Qd, _Names
+from vf.ref import types as ty
 
 PID = "C18"
 RULE = ("one case = a generated quantized model: 1..3 weight layers (QDense, QConv1D, QConv2D, QDepthwiseConv2D) "
@@ -27,7 +28,7 @@ ASSUMPTIONS = [
     "the estimator is evaluated on models whose stored weights are already quantized (so raw == quantized weights)",
 ]
 TIMEOUT = {"quick": 1200, "thorough": 5400}
-WFAM = ["fixed", "fixed", "auto_po2", "po2", "po2_le1", "binary", "ternary"]
+WFAM = ["fixed", "fixed", "auto_po2", "po2", "po2_le1", "po2_mv", "binary", "ternary"]
 
 
 def thresholds(tier):
@@ -46,6 +47,8 @@ def wq_of(fam, rnd):
     return Qd("quantized_po2", bits=rnd.choice([3, 4]))
   if fam == "po2_le1":
     return Qd("quantized_po2", bits=rnd.choice([3, 4]), max_value=1.0)
+  if fam == "po2_mv":      # a cap that is not itself a power of two: the largest code is the rounded cap
+    return Qd("quantized_po2", bits=rnd.choice([4, 5]), max_value=rnd.choice([3.0, 6.0, 12.0, 5.0]))
   if fam == "binary":
     return Qd("binary", alpha=1.0)
   return Qd("ternary", alpha=1.0)
@@ -54,11 +57,16 @@ def wq_of(fam, rnd):
 def cases(tier, seed):
   n = 96 if tier == "quick" else 1500
   out = []
-  for i in range(n):
+  FOCUS = [("seq", "auto_po2"), ("seq", "auto_po2"), ("vec", "po2_mv"), ("img", "po2_mv"), ("seq", "po2_mv"), ("img", "auto_po2")]
+  nf = 12 if tier == "quick" else 120
+  for i in range(n + nf):
     rnd = random.Random(seed * 6007 + i)
     nm = _Names()
     layers = []
     mode = rnd.choice(["vec", "vec", "img", "seq"])
+    focus = FOCUS[(i - n) % len(FOCUS)] if i >= n else None
+    if focus:
+      mode = focus[0]
     fan = rnd.choice([1, 2, 3, 4, 5, 8, 9, 16, 17])
     if mode == "vec":
       shape = [fan]
@@ -76,6 +84,8 @@ def cases(tier, seed):
     nw = rnd.randint(1, 3)
     for li in range(nw):
       fam = rnd.choice(WFAM)
+      if focus and li == 0:
+        fam = focus[1]
       ub = bool(rnd.randint(0, 1))
       bq = rnd.choice([Qd("quantized_bits", bits=rnd.choice([4, 6]), integer=rnd.choice([0, 2]), symmetric=1),
                        Qd("quantized_po2", bits=4)]) if ub else None
@@ -107,13 +117,27 @@ def cases(tier, seed):
     for j, l in enumerate(layers):
       l["in"] = [j - 1]
     out.append({"spec": {"input": shape, "layers": layers}, "src": src,
-                "pattern": rnd.choice(["random", "random", "saturated_pos", "saturated_mixed", "saturated_neg", "bias_dominant"]),
+                "pattern": rnd.choice(["random", "random", "saturated_pos", "saturated_mixed", "saturated_neg", "bias_dominant"])
+                if not focus else rnd.choice(["saturated_pos", "saturated_mixed", "saturated_neg"]),
                 "idx": i, "seed": seed})
   return out
 
 
 def frac(v):
   return Fraction(float(v))
+
+
+def reported(q):
+  """Type of a reported quantizer object.  For a power-of-two type whose max_val_po2 is not itself a power
+  of two the cap is read the way qtools itself reads it (quantizer_impl.get_exp: exponent ceil(log2(max)),
+  which is also what quantized_po2 emits: it clips to max_value and then rounds in log space)."""
+  t = ty.from_reported(q)
+  if t.kind == "po2" and t.max_val is not None:
+    import math
+    mv = float(t.max_val)
+    if mv > 0 and 2.0 ** math.floor(math.log2(mv)) != mv:
+      t = ty.po2(t.bits, t.signed, ty.p2(int(math.ceil(math.log2(mv)))))
+  return t
 
 
 def entry_get(e, key):
@@ -261,7 +285,7 @@ def run_case(case, ctx):
         ctx.count("layers_checked")
         qs = l.get_quantizers()
         ws = l.get_weights()
-        wt = ty.from_reported(entry_get(e, "weight_quantizer"))
+        wt = reported(entry_get(e, "weight_quantizer"))
         # the tensor the running layer multiplies with: its quantizer applied to the stored (exported) weight;
         # this is also the call that leaves quantizer.scale in the state QTools read
         kq = np.asarray(qs[0](tf.constant(ws[0]))) if qs[0] is not None else np.asarray(ws[0])
@@ -276,10 +300,10 @@ def run_case(case, ctx):
         else:
           check_values(ctx, wt, kq, sig, "weight", "weight_values_checked")
         if l.use_bias:
-          bt = ty.from_reported(entry_get(e, "bias_quantizer"))
+          bt = reported(entry_get(e, "bias_quantizer"))
           check_values(ctx, bt, ws[1], sig, "bias", "weight_values_checked")
         acc = entry_get(e, "fused_accumulator") if fam == "auto_po2" else entry_get(e, "accumulator")
-        at = ty.from_reported(acc.output)
+        at = reported(acc.output)
         pre = outs[l.name]
         # float32 exactness guard: every partial sum must stay below 2^23 LSBs
         lsb_in = float(np.min(np.abs(ins[l.name][ins[l.name] != 0]))) if np.any(ins[l.name] != 0) else 1.0
@@ -296,7 +320,7 @@ def run_case(case, ctx):
           if m > 0 and top / m < 4.0:
             near = True
       elif cn == "QActivation":
-        ot = ty.from_reported(entry_get(e, "output_quantizer"))
+        ot = reported(entry_get(e, "output_quantizer"))
         check_values(ctx, ot, outs[l.name], dict(sig, activation=type(l.quantizer).__name__), "activation", "activation_values_checked")
   base = base0
   if near:
